@@ -138,6 +138,20 @@ NoCleanOverFailed ==
         IsDirty(w, [fs |-> fs, rid |-> runid + 1, q |-> FALSE], t).v # "clean"
 
 (***************************************************************************)
+(* C12 / C09 (at this level): termination and defined exit status          *)
+(***************************************************************************)
+ProcOrEnd == ProcStep \/ EndBuild
+\* some process can always move while a command is in flight (F_SETLKW on a lock that is
+\* never released, or a wait for a token that never comes, shows up here)
+NotHung == Quiet \/ ENABLED ProcOrEnd
+
+NoPanic == \A p \in DOMAIN procs : procs[p].rc # 101
+
+\* a command on a program whose requested targets lead back to a target being built
+\* fails, and some job status identifies the cyclic dependency (208)
+CycleReported == AfterCmd => (LastH.rc # 0 /\ 208 \in LastH.codes /\ 101 \notin LastH.codes)
+
+(***************************************************************************)
 (* C17                                                                     *)
 (***************************************************************************)
 KnownFiles == {n \in Files : w.ids[n] # 0}
